@@ -94,9 +94,9 @@ mod util;
 #[cfg(hbs_lms_verif)]
 pub mod verif_hooks;
 
-#[cfg(hbs_lms_verif)]
+#[cfg(all(hbs_lms_verif, hbs_lms_verif_trace))]
 extern crate std;
-#[cfg(hbs_lms_verif)]
+#[cfg(all(hbs_lms_verif, hbs_lms_verif_trace))]
 pub mod verif_trace;
 
 // Re-export the `signature` crate
